@@ -1056,3 +1056,85 @@ package lorawan
 //@   modifies *p
 //@   ensures C10/fresh: err == nil && fresh(p.Bytes) && len(p.Bytes) == len(data)
 //@   ensures C10/copy: forall i int :: 0 <= i && i < len(data) ==> p.Bytes[i] == data[i]
+
+// ---------------------------------------------------------------------------
+// C04: join-request / rejoin-request / join-accept MICs and join-accept encryption
+// (LoRaWAN 1.0.x §6.2.4-6.2.5, LoRaWAN 1.1 §6.2.2-6.2.3)
+//   join / rejoin request: MIC = cmac(key, MHDR | payload)[0..3]
+//   join-accept (1.0):     MIC = cmac(key, MHDR | payload)[0..3]
+//   join-accept (OptNeg):  MIC = cmac(JSIntKey, JoinReqType | JoinEUI | DevNonce | MHDR | payload)[0..3]   (EUI, nonce little endian)
+//   join-accept encryption: aes128_decrypt(key, payload | MIC) block by block (the device encrypts to decrypt)
+// ---------------------------------------------------------------------------
+//@ func (JoinAcceptPayload).MarshalBinary
+//@   allowpanic
+//@   props C10
+//@   modifies nothing
+//@   ensures C01,C04,C06/len: err == nil ==> len(result) == 12 || len(result) == 28
+//@   ensures C10/fresh: err == nil ==> fresh(result)
+
+//@ func (CFList).MarshalBinary
+//@   allowpanic
+//@   props C10
+//@   modifies nothing
+//@   ensures C01,C06/len: err == nil ==> len(result) == 16
+//@   ensures C10/fresh: err == nil ==> fresh(result)
+
+//@ func (PHYPayload).calculateUplinkJoinMIC
+//@   props C04 C10
+//@   modifies nothing
+//@   let hb = mhdr_byte(p.MHDR)
+//@   ensures C04/mic: err == nil ==> result0[0] == cmac(key, cat(seq(hb), bytes(callres("(Payload).MarshalBinary", 0)[0])))[0] && result0[1] == cmac(key, cat(seq(hb), bytes(callres("(Payload).MarshalBinary", 0)[0])))[1] && result0[2] == cmac(key, cat(seq(hb), bytes(callres("(Payload).MarshalBinary", 0)[0])))[2] && result0[3] == cmac(key, cat(seq(hb), bytes(callres("(Payload).MarshalBinary", 0)[0])))[3]
+
+//@ func (PHYPayload).calculateDownlinkJoinMIC
+//@   props C04 C10
+//@   requires typed-nil: istype(p.MACPayload, "*JoinAcceptPayload") ==> as(p.MACPayload, "*JoinAcceptPayload") != nil
+//@   modifies nothing
+//@   let hb = mhdr_byte(p.MHDR)
+//@   let optneg = as(p.MACPayload, "*JoinAcceptPayload").DLSettings.OptNeg
+//@   ensures C04/type: err == nil ==> istype(p.MACPayload, "*JoinAcceptPayload")
+//@   ensures C04/mic10: err == nil && !optneg ==> result0[0] == cmac(key, cat(seq(hb), bytes(callres("(JoinAcceptPayload).MarshalBinary", 0)[0])))[0] && result0[1] == cmac(key, cat(seq(hb), bytes(callres("(JoinAcceptPayload).MarshalBinary", 0)[0])))[1] && result0[2] == cmac(key, cat(seq(hb), bytes(callres("(JoinAcceptPayload).MarshalBinary", 0)[0])))[2] && result0[3] == cmac(key, cat(seq(hb), bytes(callres("(JoinAcceptPayload).MarshalBinary", 0)[0])))[3]
+//@   ensures C04/mic11: err == nil && optneg ==> result0[0] == cmac(key, cat(seq(uint8(joinReqType), joinEUI[7], joinEUI[6], joinEUI[5], joinEUI[4], joinEUI[3], joinEUI[2], joinEUI[1], joinEUI[0], uint8(devNonce), uint8(devNonce >> 8), hb), bytes(callres("(JoinAcceptPayload).MarshalBinary", 0)[0])))[0] && result0[1] == cmac(key, cat(seq(uint8(joinReqType), joinEUI[7], joinEUI[6], joinEUI[5], joinEUI[4], joinEUI[3], joinEUI[2], joinEUI[1], joinEUI[0], uint8(devNonce), uint8(devNonce >> 8), hb), bytes(callres("(JoinAcceptPayload).MarshalBinary", 0)[0])))[1] && result0[2] == cmac(key, cat(seq(uint8(joinReqType), joinEUI[7], joinEUI[6], joinEUI[5], joinEUI[4], joinEUI[3], joinEUI[2], joinEUI[1], joinEUI[0], uint8(devNonce), uint8(devNonce >> 8), hb), bytes(callres("(JoinAcceptPayload).MarshalBinary", 0)[0])))[2] && result0[3] == cmac(key, cat(seq(uint8(joinReqType), joinEUI[7], joinEUI[6], joinEUI[5], joinEUI[4], joinEUI[3], joinEUI[2], joinEUI[1], joinEUI[0], uint8(devNonce), uint8(devNonce >> 8), hb), bytes(callres("(JoinAcceptPayload).MarshalBinary", 0)[0])))[3]
+
+// join-accept encryption (join-accept payloads are 12 bytes, or 28 with a CFList):
+//   ct = aes128_decrypt(key, payload | MIC) block by block (the end-device uses aes128_encrypt to decrypt);
+//   afterwards MACPayload holds ct without its last 4 bytes and MIC holds those 4 bytes
+//@ func (*PHYPayload).EncryptJoinAcceptPayload
+//@   props C04 C09 C10
+//@   requires typed-nil: istype(p.MACPayload, "*JoinAcceptPayload") ==> as(p.MACPayload, "*JoinAcceptPayload") != nil
+//@   modifies *p
+//@   let om = p.MIC
+//@   ensures C04/type: err == nil ==> istype(p.MACPayload, "*DataPayload") && fresh(as(p.MACPayload, "*DataPayload")) && fresh(as(p.MACPayload, "*DataPayload").Bytes)
+//@   ensures C04/len: err == nil ==> len(as(p.MACPayload, "*DataPayload").Bytes) == len(callres("(JoinAcceptPayload).MarshalBinary", 0)[0])
+//@   ensures C04/ct12: err == nil && len(callres("(JoinAcceptPayload).MarshalBinary", 0)[0]) == 12 ==> as(p.MACPayload, "*DataPayload").Bytes[0] == aes_dec(key, callres("(JoinAcceptPayload).MarshalBinary", 0)[0][0], callres("(JoinAcceptPayload).MarshalBinary", 0)[0][1], callres("(JoinAcceptPayload).MarshalBinary", 0)[0][2], callres("(JoinAcceptPayload).MarshalBinary", 0)[0][3], callres("(JoinAcceptPayload).MarshalBinary", 0)[0][4], callres("(JoinAcceptPayload).MarshalBinary", 0)[0][5], callres("(JoinAcceptPayload).MarshalBinary", 0)[0][6], callres("(JoinAcceptPayload).MarshalBinary", 0)[0][7], callres("(JoinAcceptPayload).MarshalBinary", 0)[0][8], callres("(JoinAcceptPayload).MarshalBinary", 0)[0][9], callres("(JoinAcceptPayload).MarshalBinary", 0)[0][10], callres("(JoinAcceptPayload).MarshalBinary", 0)[0][11], om[0], om[1], om[2], om[3])[0] && as(p.MACPayload, "*DataPayload").Bytes[1] == aes_dec(key, callres("(JoinAcceptPayload).MarshalBinary", 0)[0][0], callres("(JoinAcceptPayload).MarshalBinary", 0)[0][1], callres("(JoinAcceptPayload).MarshalBinary", 0)[0][2], callres("(JoinAcceptPayload).MarshalBinary", 0)[0][3], callres("(JoinAcceptPayload).MarshalBinary", 0)[0][4], callres("(JoinAcceptPayload).MarshalBinary", 0)[0][5], callres("(JoinAcceptPayload).MarshalBinary", 0)[0][6], callres("(JoinAcceptPayload).MarshalBinary", 0)[0][7], callres("(JoinAcceptPayload).MarshalBinary", 0)[0][8], callres("(JoinAcceptPayload).MarshalBinary", 0)[0][9], callres("(JoinAcceptPayload).MarshalBinary", 0)[0][10], callres("(JoinAcceptPayload).MarshalBinary", 0)[0][11], om[0], om[1], om[2], om[3])[1] && as(p.MACPayload, "*DataPayload").Bytes[2] == aes_dec(key, callres("(JoinAcceptPayload).MarshalBinary", 0)[0][0], callres("(JoinAcceptPayload).MarshalBinary", 0)[0][1], callres("(JoinAcceptPayload).MarshalBinary", 0)[0][2], callres("(JoinAcceptPayload).MarshalBinary", 0)[0][3], callres("(JoinAcceptPayload).MarshalBinary", 0)[0][4], callres("(JoinAcceptPayload).MarshalBinary", 0)[0][5], callres("(JoinAcceptPayload).MarshalBinary", 0)[0][6], callres("(JoinAcceptPayload).MarshalBinary", 0)[0][7], callres("(JoinAcceptPayload).MarshalBinary", 0)[0][8], callres("(JoinAcceptPayload).MarshalBinary", 0)[0][9], callres("(JoinAcceptPayload).MarshalBinary", 0)[0][10], callres("(JoinAcceptPayload).MarshalBinary", 0)[0][11], om[0], om[1], om[2], om[3])[2] && as(p.MACPayload, "*DataPayload").Bytes[3] == aes_dec(key, callres("(JoinAcceptPayload).MarshalBinary", 0)[0][0], callres("(JoinAcceptPayload).MarshalBinary", 0)[0][1], callres("(JoinAcceptPayload).MarshalBinary", 0)[0][2], callres("(JoinAcceptPayload).MarshalBinary", 0)[0][3], callres("(JoinAcceptPayload).MarshalBinary", 0)[0][4], callres("(JoinAcceptPayload).MarshalBinary", 0)[0][5], callres("(JoinAcceptPayload).MarshalBinary", 0)[0][6], callres("(JoinAcceptPayload).MarshalBinary", 0)[0][7], callres("(JoinAcceptPayload).MarshalBinary", 0)[0][8], callres("(JoinAcceptPayload).MarshalBinary", 0)[0][9], callres("(JoinAcceptPayload).MarshalBinary", 0)[0][10], callres("(JoinAcceptPayload).MarshalBinary", 0)[0][11], om[0], om[1], om[2], om[3])[3] && as(p.MACPayload, "*DataPayload").Bytes[4] == aes_dec(key, callres("(JoinAcceptPayload).MarshalBinary", 0)[0][0], callres("(JoinAcceptPayload).MarshalBinary", 0)[0][1], callres("(JoinAcceptPayload).MarshalBinary", 0)[0][2], callres("(JoinAcceptPayload).MarshalBinary", 0)[0][3], callres("(JoinAcceptPayload).MarshalBinary", 0)[0][4], callres("(JoinAcceptPayload).MarshalBinary", 0)[0][5], callres("(JoinAcceptPayload).MarshalBinary", 0)[0][6], callres("(JoinAcceptPayload).MarshalBinary", 0)[0][7], callres("(JoinAcceptPayload).MarshalBinary", 0)[0][8], callres("(JoinAcceptPayload).MarshalBinary", 0)[0][9], callres("(JoinAcceptPayload).MarshalBinary", 0)[0][10], callres("(JoinAcceptPayload).MarshalBinary", 0)[0][11], om[0], om[1], om[2], om[3])[4] && as(p.MACPayload, "*DataPayload").Bytes[5] == aes_dec(key, callres("(JoinAcceptPayload).MarshalBinary", 0)[0][0], callres("(JoinAcceptPayload).MarshalBinary", 0)[0][1], callres("(JoinAcceptPayload).MarshalBinary", 0)[0][2], callres("(JoinAcceptPayload).MarshalBinary", 0)[0][3], callres("(JoinAcceptPayload).MarshalBinary", 0)[0][4], callres("(JoinAcceptPayload).MarshalBinary", 0)[0][5], callres("(JoinAcceptPayload).MarshalBinary", 0)[0][6], callres("(JoinAcceptPayload).MarshalBinary", 0)[0][7], callres("(JoinAcceptPayload).MarshalBinary", 0)[0][8], callres("(JoinAcceptPayload).MarshalBinary", 0)[0][9], callres("(JoinAcceptPayload).MarshalBinary", 0)[0][10], callres("(JoinAcceptPayload).MarshalBinary", 0)[0][11], om[0], om[1], om[2], om[3])[5] && as(p.MACPayload, "*DataPayload").Bytes[6] == aes_dec(key, callres("(JoinAcceptPayload).MarshalBinary", 0)[0][0], callres("(JoinAcceptPayload).MarshalBinary", 0)[0][1], callres("(JoinAcceptPayload).MarshalBinary", 0)[0][2], callres("(JoinAcceptPayload).MarshalBinary", 0)[0][3], callres("(JoinAcceptPayload).MarshalBinary", 0)[0][4], callres("(JoinAcceptPayload).MarshalBinary", 0)[0][5], callres("(JoinAcceptPayload).MarshalBinary", 0)[0][6], callres("(JoinAcceptPayload).MarshalBinary", 0)[0][7], callres("(JoinAcceptPayload).MarshalBinary", 0)[0][8], callres("(JoinAcceptPayload).MarshalBinary", 0)[0][9], callres("(JoinAcceptPayload).MarshalBinary", 0)[0][10], callres("(JoinAcceptPayload).MarshalBinary", 0)[0][11], om[0], om[1], om[2], om[3])[6] && as(p.MACPayload, "*DataPayload").Bytes[7] == aes_dec(key, callres("(JoinAcceptPayload).MarshalBinary", 0)[0][0], callres("(JoinAcceptPayload).MarshalBinary", 0)[0][1], callres("(JoinAcceptPayload).MarshalBinary", 0)[0][2], callres("(JoinAcceptPayload).MarshalBinary", 0)[0][3], callres("(JoinAcceptPayload).MarshalBinary", 0)[0][4], callres("(JoinAcceptPayload).MarshalBinary", 0)[0][5], callres("(JoinAcceptPayload).MarshalBinary", 0)[0][6], callres("(JoinAcceptPayload).MarshalBinary", 0)[0][7], callres("(JoinAcceptPayload).MarshalBinary", 0)[0][8], callres("(JoinAcceptPayload).MarshalBinary", 0)[0][9], callres("(JoinAcceptPayload).MarshalBinary", 0)[0][10], callres("(JoinAcceptPayload).MarshalBinary", 0)[0][11], om[0], om[1], om[2], om[3])[7] && as(p.MACPayload, "*DataPayload").Bytes[8] == aes_dec(key, callres("(JoinAcceptPayload).MarshalBinary", 0)[0][0], callres("(JoinAcceptPayload).MarshalBinary", 0)[0][1], callres("(JoinAcceptPayload).MarshalBinary", 0)[0][2], callres("(JoinAcceptPayload).MarshalBinary", 0)[0][3], callres("(JoinAcceptPayload).MarshalBinary", 0)[0][4], callres("(JoinAcceptPayload).MarshalBinary", 0)[0][5], callres("(JoinAcceptPayload).MarshalBinary", 0)[0][6], callres("(JoinAcceptPayload).MarshalBinary", 0)[0][7], callres("(JoinAcceptPayload).MarshalBinary", 0)[0][8], callres("(JoinAcceptPayload).MarshalBinary", 0)[0][9], callres("(JoinAcceptPayload).MarshalBinary", 0)[0][10], callres("(JoinAcceptPayload).MarshalBinary", 0)[0][11], om[0], om[1], om[2], om[3])[8] && as(p.MACPayload, "*DataPayload").Bytes[9] == aes_dec(key, callres("(JoinAcceptPayload).MarshalBinary", 0)[0][0], callres("(JoinAcceptPayload).MarshalBinary", 0)[0][1], callres("(JoinAcceptPayload).MarshalBinary", 0)[0][2], callres("(JoinAcceptPayload).MarshalBinary", 0)[0][3], callres("(JoinAcceptPayload).MarshalBinary", 0)[0][4], callres("(JoinAcceptPayload).MarshalBinary", 0)[0][5], callres("(JoinAcceptPayload).MarshalBinary", 0)[0][6], callres("(JoinAcceptPayload).MarshalBinary", 0)[0][7], callres("(JoinAcceptPayload).MarshalBinary", 0)[0][8], callres("(JoinAcceptPayload).MarshalBinary", 0)[0][9], callres("(JoinAcceptPayload).MarshalBinary", 0)[0][10], callres("(JoinAcceptPayload).MarshalBinary", 0)[0][11], om[0], om[1], om[2], om[3])[9] && as(p.MACPayload, "*DataPayload").Bytes[10] == aes_dec(key, callres("(JoinAcceptPayload).MarshalBinary", 0)[0][0], callres("(JoinAcceptPayload).MarshalBinary", 0)[0][1], callres("(JoinAcceptPayload).MarshalBinary", 0)[0][2], callres("(JoinAcceptPayload).MarshalBinary", 0)[0][3], callres("(JoinAcceptPayload).MarshalBinary", 0)[0][4], callres("(JoinAcceptPayload).MarshalBinary", 0)[0][5], callres("(JoinAcceptPayload).MarshalBinary", 0)[0][6], callres("(JoinAcceptPayload).MarshalBinary", 0)[0][7], callres("(JoinAcceptPayload).MarshalBinary", 0)[0][8], callres("(JoinAcceptPayload).MarshalBinary", 0)[0][9], callres("(JoinAcceptPayload).MarshalBinary", 0)[0][10], callres("(JoinAcceptPayload).MarshalBinary", 0)[0][11], om[0], om[1], om[2], om[3])[10] && as(p.MACPayload, "*DataPayload").Bytes[11] == aes_dec(key, callres("(JoinAcceptPayload).MarshalBinary", 0)[0][0], callres("(JoinAcceptPayload).MarshalBinary", 0)[0][1], callres("(JoinAcceptPayload).MarshalBinary", 0)[0][2], callres("(JoinAcceptPayload).MarshalBinary", 0)[0][3], callres("(JoinAcceptPayload).MarshalBinary", 0)[0][4], callres("(JoinAcceptPayload).MarshalBinary", 0)[0][5], callres("(JoinAcceptPayload).MarshalBinary", 0)[0][6], callres("(JoinAcceptPayload).MarshalBinary", 0)[0][7], callres("(JoinAcceptPayload).MarshalBinary", 0)[0][8], callres("(JoinAcceptPayload).MarshalBinary", 0)[0][9], callres("(JoinAcceptPayload).MarshalBinary", 0)[0][10], callres("(JoinAcceptPayload).MarshalBinary", 0)[0][11], om[0], om[1], om[2], om[3])[11] && p.MIC[0] == aes_dec(key, callres("(JoinAcceptPayload).MarshalBinary", 0)[0][0], callres("(JoinAcceptPayload).MarshalBinary", 0)[0][1], callres("(JoinAcceptPayload).MarshalBinary", 0)[0][2], callres("(JoinAcceptPayload).MarshalBinary", 0)[0][3], callres("(JoinAcceptPayload).MarshalBinary", 0)[0][4], callres("(JoinAcceptPayload).MarshalBinary", 0)[0][5], callres("(JoinAcceptPayload).MarshalBinary", 0)[0][6], callres("(JoinAcceptPayload).MarshalBinary", 0)[0][7], callres("(JoinAcceptPayload).MarshalBinary", 0)[0][8], callres("(JoinAcceptPayload).MarshalBinary", 0)[0][9], callres("(JoinAcceptPayload).MarshalBinary", 0)[0][10], callres("(JoinAcceptPayload).MarshalBinary", 0)[0][11], om[0], om[1], om[2], om[3])[12] && p.MIC[1] == aes_dec(key, callres("(JoinAcceptPayload).MarshalBinary", 0)[0][0], callres("(JoinAcceptPayload).MarshalBinary", 0)[0][1], callres("(JoinAcceptPayload).MarshalBinary", 0)[0][2], callres("(JoinAcceptPayload).MarshalBinary", 0)[0][3], callres("(JoinAcceptPayload).MarshalBinary", 0)[0][4], callres("(JoinAcceptPayload).MarshalBinary", 0)[0][5], callres("(JoinAcceptPayload).MarshalBinary", 0)[0][6], callres("(JoinAcceptPayload).MarshalBinary", 0)[0][7], callres("(JoinAcceptPayload).MarshalBinary", 0)[0][8], callres("(JoinAcceptPayload).MarshalBinary", 0)[0][9], callres("(JoinAcceptPayload).MarshalBinary", 0)[0][10], callres("(JoinAcceptPayload).MarshalBinary", 0)[0][11], om[0], om[1], om[2], om[3])[13] && p.MIC[2] == aes_dec(key, callres("(JoinAcceptPayload).MarshalBinary", 0)[0][0], callres("(JoinAcceptPayload).MarshalBinary", 0)[0][1], callres("(JoinAcceptPayload).MarshalBinary", 0)[0][2], callres("(JoinAcceptPayload).MarshalBinary", 0)[0][3], callres("(JoinAcceptPayload).MarshalBinary", 0)[0][4], callres("(JoinAcceptPayload).MarshalBinary", 0)[0][5], callres("(JoinAcceptPayload).MarshalBinary", 0)[0][6], callres("(JoinAcceptPayload).MarshalBinary", 0)[0][7], callres("(JoinAcceptPayload).MarshalBinary", 0)[0][8], callres("(JoinAcceptPayload).MarshalBinary", 0)[0][9], callres("(JoinAcceptPayload).MarshalBinary", 0)[0][10], callres("(JoinAcceptPayload).MarshalBinary", 0)[0][11], om[0], om[1], om[2], om[3])[14] && p.MIC[3] == aes_dec(key, callres("(JoinAcceptPayload).MarshalBinary", 0)[0][0], callres("(JoinAcceptPayload).MarshalBinary", 0)[0][1], callres("(JoinAcceptPayload).MarshalBinary", 0)[0][2], callres("(JoinAcceptPayload).MarshalBinary", 0)[0][3], callres("(JoinAcceptPayload).MarshalBinary", 0)[0][4], callres("(JoinAcceptPayload).MarshalBinary", 0)[0][5], callres("(JoinAcceptPayload).MarshalBinary", 0)[0][6], callres("(JoinAcceptPayload).MarshalBinary", 0)[0][7], callres("(JoinAcceptPayload).MarshalBinary", 0)[0][8], callres("(JoinAcceptPayload).MarshalBinary", 0)[0][9], callres("(JoinAcceptPayload).MarshalBinary", 0)[0][10], callres("(JoinAcceptPayload).MarshalBinary", 0)[0][11], om[0], om[1], om[2], om[3])[15]
+//@   ensures C04/ct28a: err == nil && len(callres("(JoinAcceptPayload).MarshalBinary", 0)[0]) == 28 ==> as(p.MACPayload, "*DataPayload").Bytes[0] == aes_dec(key, callres("(JoinAcceptPayload).MarshalBinary", 0)[0][0], callres("(JoinAcceptPayload).MarshalBinary", 0)[0][1], callres("(JoinAcceptPayload).MarshalBinary", 0)[0][2], callres("(JoinAcceptPayload).MarshalBinary", 0)[0][3], callres("(JoinAcceptPayload).MarshalBinary", 0)[0][4], callres("(JoinAcceptPayload).MarshalBinary", 0)[0][5], callres("(JoinAcceptPayload).MarshalBinary", 0)[0][6], callres("(JoinAcceptPayload).MarshalBinary", 0)[0][7], callres("(JoinAcceptPayload).MarshalBinary", 0)[0][8], callres("(JoinAcceptPayload).MarshalBinary", 0)[0][9], callres("(JoinAcceptPayload).MarshalBinary", 0)[0][10], callres("(JoinAcceptPayload).MarshalBinary", 0)[0][11], callres("(JoinAcceptPayload).MarshalBinary", 0)[0][12], callres("(JoinAcceptPayload).MarshalBinary", 0)[0][13], callres("(JoinAcceptPayload).MarshalBinary", 0)[0][14], callres("(JoinAcceptPayload).MarshalBinary", 0)[0][15])[0] && as(p.MACPayload, "*DataPayload").Bytes[1] == aes_dec(key, callres("(JoinAcceptPayload).MarshalBinary", 0)[0][0], callres("(JoinAcceptPayload).MarshalBinary", 0)[0][1], callres("(JoinAcceptPayload).MarshalBinary", 0)[0][2], callres("(JoinAcceptPayload).MarshalBinary", 0)[0][3], callres("(JoinAcceptPayload).MarshalBinary", 0)[0][4], callres("(JoinAcceptPayload).MarshalBinary", 0)[0][5], callres("(JoinAcceptPayload).MarshalBinary", 0)[0][6], callres("(JoinAcceptPayload).MarshalBinary", 0)[0][7], callres("(JoinAcceptPayload).MarshalBinary", 0)[0][8], callres("(JoinAcceptPayload).MarshalBinary", 0)[0][9], callres("(JoinAcceptPayload).MarshalBinary", 0)[0][10], callres("(JoinAcceptPayload).MarshalBinary", 0)[0][11], callres("(JoinAcceptPayload).MarshalBinary", 0)[0][12], callres("(JoinAcceptPayload).MarshalBinary", 0)[0][13], callres("(JoinAcceptPayload).MarshalBinary", 0)[0][14], callres("(JoinAcceptPayload).MarshalBinary", 0)[0][15])[1] && as(p.MACPayload, "*DataPayload").Bytes[2] == aes_dec(key, callres("(JoinAcceptPayload).MarshalBinary", 0)[0][0], callres("(JoinAcceptPayload).MarshalBinary", 0)[0][1], callres("(JoinAcceptPayload).MarshalBinary", 0)[0][2], callres("(JoinAcceptPayload).MarshalBinary", 0)[0][3], callres("(JoinAcceptPayload).MarshalBinary", 0)[0][4], callres("(JoinAcceptPayload).MarshalBinary", 0)[0][5], callres("(JoinAcceptPayload).MarshalBinary", 0)[0][6], callres("(JoinAcceptPayload).MarshalBinary", 0)[0][7], callres("(JoinAcceptPayload).MarshalBinary", 0)[0][8], callres("(JoinAcceptPayload).MarshalBinary", 0)[0][9], callres("(JoinAcceptPayload).MarshalBinary", 0)[0][10], callres("(JoinAcceptPayload).MarshalBinary", 0)[0][11], callres("(JoinAcceptPayload).MarshalBinary", 0)[0][12], callres("(JoinAcceptPayload).MarshalBinary", 0)[0][13], callres("(JoinAcceptPayload).MarshalBinary", 0)[0][14], callres("(JoinAcceptPayload).MarshalBinary", 0)[0][15])[2] && as(p.MACPayload, "*DataPayload").Bytes[3] == aes_dec(key, callres("(JoinAcceptPayload).MarshalBinary", 0)[0][0], callres("(JoinAcceptPayload).MarshalBinary", 0)[0][1], callres("(JoinAcceptPayload).MarshalBinary", 0)[0][2], callres("(JoinAcceptPayload).MarshalBinary", 0)[0][3], callres("(JoinAcceptPayload).MarshalBinary", 0)[0][4], callres("(JoinAcceptPayload).MarshalBinary", 0)[0][5], callres("(JoinAcceptPayload).MarshalBinary", 0)[0][6], callres("(JoinAcceptPayload).MarshalBinary", 0)[0][7], callres("(JoinAcceptPayload).MarshalBinary", 0)[0][8], callres("(JoinAcceptPayload).MarshalBinary", 0)[0][9], callres("(JoinAcceptPayload).MarshalBinary", 0)[0][10], callres("(JoinAcceptPayload).MarshalBinary", 0)[0][11], callres("(JoinAcceptPayload).MarshalBinary", 0)[0][12], callres("(JoinAcceptPayload).MarshalBinary", 0)[0][13], callres("(JoinAcceptPayload).MarshalBinary", 0)[0][14], callres("(JoinAcceptPayload).MarshalBinary", 0)[0][15])[3] && as(p.MACPayload, "*DataPayload").Bytes[4] == aes_dec(key, callres("(JoinAcceptPayload).MarshalBinary", 0)[0][0], callres("(JoinAcceptPayload).MarshalBinary", 0)[0][1], callres("(JoinAcceptPayload).MarshalBinary", 0)[0][2], callres("(JoinAcceptPayload).MarshalBinary", 0)[0][3], callres("(JoinAcceptPayload).MarshalBinary", 0)[0][4], callres("(JoinAcceptPayload).MarshalBinary", 0)[0][5], callres("(JoinAcceptPayload).MarshalBinary", 0)[0][6], callres("(JoinAcceptPayload).MarshalBinary", 0)[0][7], callres("(JoinAcceptPayload).MarshalBinary", 0)[0][8], callres("(JoinAcceptPayload).MarshalBinary", 0)[0][9], callres("(JoinAcceptPayload).MarshalBinary", 0)[0][10], callres("(JoinAcceptPayload).MarshalBinary", 0)[0][11], callres("(JoinAcceptPayload).MarshalBinary", 0)[0][12], callres("(JoinAcceptPayload).MarshalBinary", 0)[0][13], callres("(JoinAcceptPayload).MarshalBinary", 0)[0][14], callres("(JoinAcceptPayload).MarshalBinary", 0)[0][15])[4] && as(p.MACPayload, "*DataPayload").Bytes[5] == aes_dec(key, callres("(JoinAcceptPayload).MarshalBinary", 0)[0][0], callres("(JoinAcceptPayload).MarshalBinary", 0)[0][1], callres("(JoinAcceptPayload).MarshalBinary", 0)[0][2], callres("(JoinAcceptPayload).MarshalBinary", 0)[0][3], callres("(JoinAcceptPayload).MarshalBinary", 0)[0][4], callres("(JoinAcceptPayload).MarshalBinary", 0)[0][5], callres("(JoinAcceptPayload).MarshalBinary", 0)[0][6], callres("(JoinAcceptPayload).MarshalBinary", 0)[0][7], callres("(JoinAcceptPayload).MarshalBinary", 0)[0][8], callres("(JoinAcceptPayload).MarshalBinary", 0)[0][9], callres("(JoinAcceptPayload).MarshalBinary", 0)[0][10], callres("(JoinAcceptPayload).MarshalBinary", 0)[0][11], callres("(JoinAcceptPayload).MarshalBinary", 0)[0][12], callres("(JoinAcceptPayload).MarshalBinary", 0)[0][13], callres("(JoinAcceptPayload).MarshalBinary", 0)[0][14], callres("(JoinAcceptPayload).MarshalBinary", 0)[0][15])[5] && as(p.MACPayload, "*DataPayload").Bytes[6] == aes_dec(key, callres("(JoinAcceptPayload).MarshalBinary", 0)[0][0], callres("(JoinAcceptPayload).MarshalBinary", 0)[0][1], callres("(JoinAcceptPayload).MarshalBinary", 0)[0][2], callres("(JoinAcceptPayload).MarshalBinary", 0)[0][3], callres("(JoinAcceptPayload).MarshalBinary", 0)[0][4], callres("(JoinAcceptPayload).MarshalBinary", 0)[0][5], callres("(JoinAcceptPayload).MarshalBinary", 0)[0][6], callres("(JoinAcceptPayload).MarshalBinary", 0)[0][7], callres("(JoinAcceptPayload).MarshalBinary", 0)[0][8], callres("(JoinAcceptPayload).MarshalBinary", 0)[0][9], callres("(JoinAcceptPayload).MarshalBinary", 0)[0][10], callres("(JoinAcceptPayload).MarshalBinary", 0)[0][11], callres("(JoinAcceptPayload).MarshalBinary", 0)[0][12], callres("(JoinAcceptPayload).MarshalBinary", 0)[0][13], callres("(JoinAcceptPayload).MarshalBinary", 0)[0][14], callres("(JoinAcceptPayload).MarshalBinary", 0)[0][15])[6] && as(p.MACPayload, "*DataPayload").Bytes[7] == aes_dec(key, callres("(JoinAcceptPayload).MarshalBinary", 0)[0][0], callres("(JoinAcceptPayload).MarshalBinary", 0)[0][1], callres("(JoinAcceptPayload).MarshalBinary", 0)[0][2], callres("(JoinAcceptPayload).MarshalBinary", 0)[0][3], callres("(JoinAcceptPayload).MarshalBinary", 0)[0][4], callres("(JoinAcceptPayload).MarshalBinary", 0)[0][5], callres("(JoinAcceptPayload).MarshalBinary", 0)[0][6], callres("(JoinAcceptPayload).MarshalBinary", 0)[0][7], callres("(JoinAcceptPayload).MarshalBinary", 0)[0][8], callres("(JoinAcceptPayload).MarshalBinary", 0)[0][9], callres("(JoinAcceptPayload).MarshalBinary", 0)[0][10], callres("(JoinAcceptPayload).MarshalBinary", 0)[0][11], callres("(JoinAcceptPayload).MarshalBinary", 0)[0][12], callres("(JoinAcceptPayload).MarshalBinary", 0)[0][13], callres("(JoinAcceptPayload).MarshalBinary", 0)[0][14], callres("(JoinAcceptPayload).MarshalBinary", 0)[0][15])[7] && as(p.MACPayload, "*DataPayload").Bytes[8] == aes_dec(key, callres("(JoinAcceptPayload).MarshalBinary", 0)[0][0], callres("(JoinAcceptPayload).MarshalBinary", 0)[0][1], callres("(JoinAcceptPayload).MarshalBinary", 0)[0][2], callres("(JoinAcceptPayload).MarshalBinary", 0)[0][3], callres("(JoinAcceptPayload).MarshalBinary", 0)[0][4], callres("(JoinAcceptPayload).MarshalBinary", 0)[0][5], callres("(JoinAcceptPayload).MarshalBinary", 0)[0][6], callres("(JoinAcceptPayload).MarshalBinary", 0)[0][7], callres("(JoinAcceptPayload).MarshalBinary", 0)[0][8], callres("(JoinAcceptPayload).MarshalBinary", 0)[0][9], callres("(JoinAcceptPayload).MarshalBinary", 0)[0][10], callres("(JoinAcceptPayload).MarshalBinary", 0)[0][11], callres("(JoinAcceptPayload).MarshalBinary", 0)[0][12], callres("(JoinAcceptPayload).MarshalBinary", 0)[0][13], callres("(JoinAcceptPayload).MarshalBinary", 0)[0][14], callres("(JoinAcceptPayload).MarshalBinary", 0)[0][15])[8] && as(p.MACPayload, "*DataPayload").Bytes[9] == aes_dec(key, callres("(JoinAcceptPayload).MarshalBinary", 0)[0][0], callres("(JoinAcceptPayload).MarshalBinary", 0)[0][1], callres("(JoinAcceptPayload).MarshalBinary", 0)[0][2], callres("(JoinAcceptPayload).MarshalBinary", 0)[0][3], callres("(JoinAcceptPayload).MarshalBinary", 0)[0][4], callres("(JoinAcceptPayload).MarshalBinary", 0)[0][5], callres("(JoinAcceptPayload).MarshalBinary", 0)[0][6], callres("(JoinAcceptPayload).MarshalBinary", 0)[0][7], callres("(JoinAcceptPayload).MarshalBinary", 0)[0][8], callres("(JoinAcceptPayload).MarshalBinary", 0)[0][9], callres("(JoinAcceptPayload).MarshalBinary", 0)[0][10], callres("(JoinAcceptPayload).MarshalBinary", 0)[0][11], callres("(JoinAcceptPayload).MarshalBinary", 0)[0][12], callres("(JoinAcceptPayload).MarshalBinary", 0)[0][13], callres("(JoinAcceptPayload).MarshalBinary", 0)[0][14], callres("(JoinAcceptPayload).MarshalBinary", 0)[0][15])[9] && as(p.MACPayload, "*DataPayload").Bytes[10] == aes_dec(key, callres("(JoinAcceptPayload).MarshalBinary", 0)[0][0], callres("(JoinAcceptPayload).MarshalBinary", 0)[0][1], callres("(JoinAcceptPayload).MarshalBinary", 0)[0][2], callres("(JoinAcceptPayload).MarshalBinary", 0)[0][3], callres("(JoinAcceptPayload).MarshalBinary", 0)[0][4], callres("(JoinAcceptPayload).MarshalBinary", 0)[0][5], callres("(JoinAcceptPayload).MarshalBinary", 0)[0][6], callres("(JoinAcceptPayload).MarshalBinary", 0)[0][7], callres("(JoinAcceptPayload).MarshalBinary", 0)[0][8], callres("(JoinAcceptPayload).MarshalBinary", 0)[0][9], callres("(JoinAcceptPayload).MarshalBinary", 0)[0][10], callres("(JoinAcceptPayload).MarshalBinary", 0)[0][11], callres("(JoinAcceptPayload).MarshalBinary", 0)[0][12], callres("(JoinAcceptPayload).MarshalBinary", 0)[0][13], callres("(JoinAcceptPayload).MarshalBinary", 0)[0][14], callres("(JoinAcceptPayload).MarshalBinary", 0)[0][15])[10] && as(p.MACPayload, "*DataPayload").Bytes[11] == aes_dec(key, callres("(JoinAcceptPayload).MarshalBinary", 0)[0][0], callres("(JoinAcceptPayload).MarshalBinary", 0)[0][1], callres("(JoinAcceptPayload).MarshalBinary", 0)[0][2], callres("(JoinAcceptPayload).MarshalBinary", 0)[0][3], callres("(JoinAcceptPayload).MarshalBinary", 0)[0][4], callres("(JoinAcceptPayload).MarshalBinary", 0)[0][5], callres("(JoinAcceptPayload).MarshalBinary", 0)[0][6], callres("(JoinAcceptPayload).MarshalBinary", 0)[0][7], callres("(JoinAcceptPayload).MarshalBinary", 0)[0][8], callres("(JoinAcceptPayload).MarshalBinary", 0)[0][9], callres("(JoinAcceptPayload).MarshalBinary", 0)[0][10], callres("(JoinAcceptPayload).MarshalBinary", 0)[0][11], callres("(JoinAcceptPayload).MarshalBinary", 0)[0][12], callres("(JoinAcceptPayload).MarshalBinary", 0)[0][13], callres("(JoinAcceptPayload).MarshalBinary", 0)[0][14], callres("(JoinAcceptPayload).MarshalBinary", 0)[0][15])[11] && as(p.MACPayload, "*DataPayload").Bytes[12] == aes_dec(key, callres("(JoinAcceptPayload).MarshalBinary", 0)[0][0], callres("(JoinAcceptPayload).MarshalBinary", 0)[0][1], callres("(JoinAcceptPayload).MarshalBinary", 0)[0][2], callres("(JoinAcceptPayload).MarshalBinary", 0)[0][3], callres("(JoinAcceptPayload).MarshalBinary", 0)[0][4], callres("(JoinAcceptPayload).MarshalBinary", 0)[0][5], callres("(JoinAcceptPayload).MarshalBinary", 0)[0][6], callres("(JoinAcceptPayload).MarshalBinary", 0)[0][7], callres("(JoinAcceptPayload).MarshalBinary", 0)[0][8], callres("(JoinAcceptPayload).MarshalBinary", 0)[0][9], callres("(JoinAcceptPayload).MarshalBinary", 0)[0][10], callres("(JoinAcceptPayload).MarshalBinary", 0)[0][11], callres("(JoinAcceptPayload).MarshalBinary", 0)[0][12], callres("(JoinAcceptPayload).MarshalBinary", 0)[0][13], callres("(JoinAcceptPayload).MarshalBinary", 0)[0][14], callres("(JoinAcceptPayload).MarshalBinary", 0)[0][15])[12] && as(p.MACPayload, "*DataPayload").Bytes[13] == aes_dec(key, callres("(JoinAcceptPayload).MarshalBinary", 0)[0][0], callres("(JoinAcceptPayload).MarshalBinary", 0)[0][1], callres("(JoinAcceptPayload).MarshalBinary", 0)[0][2], callres("(JoinAcceptPayload).MarshalBinary", 0)[0][3], callres("(JoinAcceptPayload).MarshalBinary", 0)[0][4], callres("(JoinAcceptPayload).MarshalBinary", 0)[0][5], callres("(JoinAcceptPayload).MarshalBinary", 0)[0][6], callres("(JoinAcceptPayload).MarshalBinary", 0)[0][7], callres("(JoinAcceptPayload).MarshalBinary", 0)[0][8], callres("(JoinAcceptPayload).MarshalBinary", 0)[0][9], callres("(JoinAcceptPayload).MarshalBinary", 0)[0][10], callres("(JoinAcceptPayload).MarshalBinary", 0)[0][11], callres("(JoinAcceptPayload).MarshalBinary", 0)[0][12], callres("(JoinAcceptPayload).MarshalBinary", 0)[0][13], callres("(JoinAcceptPayload).MarshalBinary", 0)[0][14], callres("(JoinAcceptPayload).MarshalBinary", 0)[0][15])[13] && as(p.MACPayload, "*DataPayload").Bytes[14] == aes_dec(key, callres("(JoinAcceptPayload).MarshalBinary", 0)[0][0], callres("(JoinAcceptPayload).MarshalBinary", 0)[0][1], callres("(JoinAcceptPayload).MarshalBinary", 0)[0][2], callres("(JoinAcceptPayload).MarshalBinary", 0)[0][3], callres("(JoinAcceptPayload).MarshalBinary", 0)[0][4], callres("(JoinAcceptPayload).MarshalBinary", 0)[0][5], callres("(JoinAcceptPayload).MarshalBinary", 0)[0][6], callres("(JoinAcceptPayload).MarshalBinary", 0)[0][7], callres("(JoinAcceptPayload).MarshalBinary", 0)[0][8], callres("(JoinAcceptPayload).MarshalBinary", 0)[0][9], callres("(JoinAcceptPayload).MarshalBinary", 0)[0][10], callres("(JoinAcceptPayload).MarshalBinary", 0)[0][11], callres("(JoinAcceptPayload).MarshalBinary", 0)[0][12], callres("(JoinAcceptPayload).MarshalBinary", 0)[0][13], callres("(JoinAcceptPayload).MarshalBinary", 0)[0][14], callres("(JoinAcceptPayload).MarshalBinary", 0)[0][15])[14] && as(p.MACPayload, "*DataPayload").Bytes[15] == aes_dec(key, callres("(JoinAcceptPayload).MarshalBinary", 0)[0][0], callres("(JoinAcceptPayload).MarshalBinary", 0)[0][1], callres("(JoinAcceptPayload).MarshalBinary", 0)[0][2], callres("(JoinAcceptPayload).MarshalBinary", 0)[0][3], callres("(JoinAcceptPayload).MarshalBinary", 0)[0][4], callres("(JoinAcceptPayload).MarshalBinary", 0)[0][5], callres("(JoinAcceptPayload).MarshalBinary", 0)[0][6], callres("(JoinAcceptPayload).MarshalBinary", 0)[0][7], callres("(JoinAcceptPayload).MarshalBinary", 0)[0][8], callres("(JoinAcceptPayload).MarshalBinary", 0)[0][9], callres("(JoinAcceptPayload).MarshalBinary", 0)[0][10], callres("(JoinAcceptPayload).MarshalBinary", 0)[0][11], callres("(JoinAcceptPayload).MarshalBinary", 0)[0][12], callres("(JoinAcceptPayload).MarshalBinary", 0)[0][13], callres("(JoinAcceptPayload).MarshalBinary", 0)[0][14], callres("(JoinAcceptPayload).MarshalBinary", 0)[0][15])[15]
+//@   ensures C04/ct28b: err == nil && len(callres("(JoinAcceptPayload).MarshalBinary", 0)[0]) == 28 ==> as(p.MACPayload, "*DataPayload").Bytes[16] == aes_dec(key, callres("(JoinAcceptPayload).MarshalBinary", 0)[0][16], callres("(JoinAcceptPayload).MarshalBinary", 0)[0][17], callres("(JoinAcceptPayload).MarshalBinary", 0)[0][18], callres("(JoinAcceptPayload).MarshalBinary", 0)[0][19], callres("(JoinAcceptPayload).MarshalBinary", 0)[0][20], callres("(JoinAcceptPayload).MarshalBinary", 0)[0][21], callres("(JoinAcceptPayload).MarshalBinary", 0)[0][22], callres("(JoinAcceptPayload).MarshalBinary", 0)[0][23], callres("(JoinAcceptPayload).MarshalBinary", 0)[0][24], callres("(JoinAcceptPayload).MarshalBinary", 0)[0][25], callres("(JoinAcceptPayload).MarshalBinary", 0)[0][26], callres("(JoinAcceptPayload).MarshalBinary", 0)[0][27], om[0], om[1], om[2], om[3])[0] && as(p.MACPayload, "*DataPayload").Bytes[17] == aes_dec(key, callres("(JoinAcceptPayload).MarshalBinary", 0)[0][16], callres("(JoinAcceptPayload).MarshalBinary", 0)[0][17], callres("(JoinAcceptPayload).MarshalBinary", 0)[0][18], callres("(JoinAcceptPayload).MarshalBinary", 0)[0][19], callres("(JoinAcceptPayload).MarshalBinary", 0)[0][20], callres("(JoinAcceptPayload).MarshalBinary", 0)[0][21], callres("(JoinAcceptPayload).MarshalBinary", 0)[0][22], callres("(JoinAcceptPayload).MarshalBinary", 0)[0][23], callres("(JoinAcceptPayload).MarshalBinary", 0)[0][24], callres("(JoinAcceptPayload).MarshalBinary", 0)[0][25], callres("(JoinAcceptPayload).MarshalBinary", 0)[0][26], callres("(JoinAcceptPayload).MarshalBinary", 0)[0][27], om[0], om[1], om[2], om[3])[1] && as(p.MACPayload, "*DataPayload").Bytes[18] == aes_dec(key, callres("(JoinAcceptPayload).MarshalBinary", 0)[0][16], callres("(JoinAcceptPayload).MarshalBinary", 0)[0][17], callres("(JoinAcceptPayload).MarshalBinary", 0)[0][18], callres("(JoinAcceptPayload).MarshalBinary", 0)[0][19], callres("(JoinAcceptPayload).MarshalBinary", 0)[0][20], callres("(JoinAcceptPayload).MarshalBinary", 0)[0][21], callres("(JoinAcceptPayload).MarshalBinary", 0)[0][22], callres("(JoinAcceptPayload).MarshalBinary", 0)[0][23], callres("(JoinAcceptPayload).MarshalBinary", 0)[0][24], callres("(JoinAcceptPayload).MarshalBinary", 0)[0][25], callres("(JoinAcceptPayload).MarshalBinary", 0)[0][26], callres("(JoinAcceptPayload).MarshalBinary", 0)[0][27], om[0], om[1], om[2], om[3])[2] && as(p.MACPayload, "*DataPayload").Bytes[19] == aes_dec(key, callres("(JoinAcceptPayload).MarshalBinary", 0)[0][16], callres("(JoinAcceptPayload).MarshalBinary", 0)[0][17], callres("(JoinAcceptPayload).MarshalBinary", 0)[0][18], callres("(JoinAcceptPayload).MarshalBinary", 0)[0][19], callres("(JoinAcceptPayload).MarshalBinary", 0)[0][20], callres("(JoinAcceptPayload).MarshalBinary", 0)[0][21], callres("(JoinAcceptPayload).MarshalBinary", 0)[0][22], callres("(JoinAcceptPayload).MarshalBinary", 0)[0][23], callres("(JoinAcceptPayload).MarshalBinary", 0)[0][24], callres("(JoinAcceptPayload).MarshalBinary", 0)[0][25], callres("(JoinAcceptPayload).MarshalBinary", 0)[0][26], callres("(JoinAcceptPayload).MarshalBinary", 0)[0][27], om[0], om[1], om[2], om[3])[3] && as(p.MACPayload, "*DataPayload").Bytes[20] == aes_dec(key, callres("(JoinAcceptPayload).MarshalBinary", 0)[0][16], callres("(JoinAcceptPayload).MarshalBinary", 0)[0][17], callres("(JoinAcceptPayload).MarshalBinary", 0)[0][18], callres("(JoinAcceptPayload).MarshalBinary", 0)[0][19], callres("(JoinAcceptPayload).MarshalBinary", 0)[0][20], callres("(JoinAcceptPayload).MarshalBinary", 0)[0][21], callres("(JoinAcceptPayload).MarshalBinary", 0)[0][22], callres("(JoinAcceptPayload).MarshalBinary", 0)[0][23], callres("(JoinAcceptPayload).MarshalBinary", 0)[0][24], callres("(JoinAcceptPayload).MarshalBinary", 0)[0][25], callres("(JoinAcceptPayload).MarshalBinary", 0)[0][26], callres("(JoinAcceptPayload).MarshalBinary", 0)[0][27], om[0], om[1], om[2], om[3])[4] && as(p.MACPayload, "*DataPayload").Bytes[21] == aes_dec(key, callres("(JoinAcceptPayload).MarshalBinary", 0)[0][16], callres("(JoinAcceptPayload).MarshalBinary", 0)[0][17], callres("(JoinAcceptPayload).MarshalBinary", 0)[0][18], callres("(JoinAcceptPayload).MarshalBinary", 0)[0][19], callres("(JoinAcceptPayload).MarshalBinary", 0)[0][20], callres("(JoinAcceptPayload).MarshalBinary", 0)[0][21], callres("(JoinAcceptPayload).MarshalBinary", 0)[0][22], callres("(JoinAcceptPayload).MarshalBinary", 0)[0][23], callres("(JoinAcceptPayload).MarshalBinary", 0)[0][24], callres("(JoinAcceptPayload).MarshalBinary", 0)[0][25], callres("(JoinAcceptPayload).MarshalBinary", 0)[0][26], callres("(JoinAcceptPayload).MarshalBinary", 0)[0][27], om[0], om[1], om[2], om[3])[5] && as(p.MACPayload, "*DataPayload").Bytes[22] == aes_dec(key, callres("(JoinAcceptPayload).MarshalBinary", 0)[0][16], callres("(JoinAcceptPayload).MarshalBinary", 0)[0][17], callres("(JoinAcceptPayload).MarshalBinary", 0)[0][18], callres("(JoinAcceptPayload).MarshalBinary", 0)[0][19], callres("(JoinAcceptPayload).MarshalBinary", 0)[0][20], callres("(JoinAcceptPayload).MarshalBinary", 0)[0][21], callres("(JoinAcceptPayload).MarshalBinary", 0)[0][22], callres("(JoinAcceptPayload).MarshalBinary", 0)[0][23], callres("(JoinAcceptPayload).MarshalBinary", 0)[0][24], callres("(JoinAcceptPayload).MarshalBinary", 0)[0][25], callres("(JoinAcceptPayload).MarshalBinary", 0)[0][26], callres("(JoinAcceptPayload).MarshalBinary", 0)[0][27], om[0], om[1], om[2], om[3])[6] && as(p.MACPayload, "*DataPayload").Bytes[23] == aes_dec(key, callres("(JoinAcceptPayload).MarshalBinary", 0)[0][16], callres("(JoinAcceptPayload).MarshalBinary", 0)[0][17], callres("(JoinAcceptPayload).MarshalBinary", 0)[0][18], callres("(JoinAcceptPayload).MarshalBinary", 0)[0][19], callres("(JoinAcceptPayload).MarshalBinary", 0)[0][20], callres("(JoinAcceptPayload).MarshalBinary", 0)[0][21], callres("(JoinAcceptPayload).MarshalBinary", 0)[0][22], callres("(JoinAcceptPayload).MarshalBinary", 0)[0][23], callres("(JoinAcceptPayload).MarshalBinary", 0)[0][24], callres("(JoinAcceptPayload).MarshalBinary", 0)[0][25], callres("(JoinAcceptPayload).MarshalBinary", 0)[0][26], callres("(JoinAcceptPayload).MarshalBinary", 0)[0][27], om[0], om[1], om[2], om[3])[7] && as(p.MACPayload, "*DataPayload").Bytes[24] == aes_dec(key, callres("(JoinAcceptPayload).MarshalBinary", 0)[0][16], callres("(JoinAcceptPayload).MarshalBinary", 0)[0][17], callres("(JoinAcceptPayload).MarshalBinary", 0)[0][18], callres("(JoinAcceptPayload).MarshalBinary", 0)[0][19], callres("(JoinAcceptPayload).MarshalBinary", 0)[0][20], callres("(JoinAcceptPayload).MarshalBinary", 0)[0][21], callres("(JoinAcceptPayload).MarshalBinary", 0)[0][22], callres("(JoinAcceptPayload).MarshalBinary", 0)[0][23], callres("(JoinAcceptPayload).MarshalBinary", 0)[0][24], callres("(JoinAcceptPayload).MarshalBinary", 0)[0][25], callres("(JoinAcceptPayload).MarshalBinary", 0)[0][26], callres("(JoinAcceptPayload).MarshalBinary", 0)[0][27], om[0], om[1], om[2], om[3])[8] && as(p.MACPayload, "*DataPayload").Bytes[25] == aes_dec(key, callres("(JoinAcceptPayload).MarshalBinary", 0)[0][16], callres("(JoinAcceptPayload).MarshalBinary", 0)[0][17], callres("(JoinAcceptPayload).MarshalBinary", 0)[0][18], callres("(JoinAcceptPayload).MarshalBinary", 0)[0][19], callres("(JoinAcceptPayload).MarshalBinary", 0)[0][20], callres("(JoinAcceptPayload).MarshalBinary", 0)[0][21], callres("(JoinAcceptPayload).MarshalBinary", 0)[0][22], callres("(JoinAcceptPayload).MarshalBinary", 0)[0][23], callres("(JoinAcceptPayload).MarshalBinary", 0)[0][24], callres("(JoinAcceptPayload).MarshalBinary", 0)[0][25], callres("(JoinAcceptPayload).MarshalBinary", 0)[0][26], callres("(JoinAcceptPayload).MarshalBinary", 0)[0][27], om[0], om[1], om[2], om[3])[9] && as(p.MACPayload, "*DataPayload").Bytes[26] == aes_dec(key, callres("(JoinAcceptPayload).MarshalBinary", 0)[0][16], callres("(JoinAcceptPayload).MarshalBinary", 0)[0][17], callres("(JoinAcceptPayload).MarshalBinary", 0)[0][18], callres("(JoinAcceptPayload).MarshalBinary", 0)[0][19], callres("(JoinAcceptPayload).MarshalBinary", 0)[0][20], callres("(JoinAcceptPayload).MarshalBinary", 0)[0][21], callres("(JoinAcceptPayload).MarshalBinary", 0)[0][22], callres("(JoinAcceptPayload).MarshalBinary", 0)[0][23], callres("(JoinAcceptPayload).MarshalBinary", 0)[0][24], callres("(JoinAcceptPayload).MarshalBinary", 0)[0][25], callres("(JoinAcceptPayload).MarshalBinary", 0)[0][26], callres("(JoinAcceptPayload).MarshalBinary", 0)[0][27], om[0], om[1], om[2], om[3])[10] && as(p.MACPayload, "*DataPayload").Bytes[27] == aes_dec(key, callres("(JoinAcceptPayload).MarshalBinary", 0)[0][16], callres("(JoinAcceptPayload).MarshalBinary", 0)[0][17], callres("(JoinAcceptPayload).MarshalBinary", 0)[0][18], callres("(JoinAcceptPayload).MarshalBinary", 0)[0][19], callres("(JoinAcceptPayload).MarshalBinary", 0)[0][20], callres("(JoinAcceptPayload).MarshalBinary", 0)[0][21], callres("(JoinAcceptPayload).MarshalBinary", 0)[0][22], callres("(JoinAcceptPayload).MarshalBinary", 0)[0][23], callres("(JoinAcceptPayload).MarshalBinary", 0)[0][24], callres("(JoinAcceptPayload).MarshalBinary", 0)[0][25], callres("(JoinAcceptPayload).MarshalBinary", 0)[0][26], callres("(JoinAcceptPayload).MarshalBinary", 0)[0][27], om[0], om[1], om[2], om[3])[11] && p.MIC[0] == aes_dec(key, callres("(JoinAcceptPayload).MarshalBinary", 0)[0][16], callres("(JoinAcceptPayload).MarshalBinary", 0)[0][17], callres("(JoinAcceptPayload).MarshalBinary", 0)[0][18], callres("(JoinAcceptPayload).MarshalBinary", 0)[0][19], callres("(JoinAcceptPayload).MarshalBinary", 0)[0][20], callres("(JoinAcceptPayload).MarshalBinary", 0)[0][21], callres("(JoinAcceptPayload).MarshalBinary", 0)[0][22], callres("(JoinAcceptPayload).MarshalBinary", 0)[0][23], callres("(JoinAcceptPayload).MarshalBinary", 0)[0][24], callres("(JoinAcceptPayload).MarshalBinary", 0)[0][25], callres("(JoinAcceptPayload).MarshalBinary", 0)[0][26], callres("(JoinAcceptPayload).MarshalBinary", 0)[0][27], om[0], om[1], om[2], om[3])[12] && p.MIC[1] == aes_dec(key, callres("(JoinAcceptPayload).MarshalBinary", 0)[0][16], callres("(JoinAcceptPayload).MarshalBinary", 0)[0][17], callres("(JoinAcceptPayload).MarshalBinary", 0)[0][18], callres("(JoinAcceptPayload).MarshalBinary", 0)[0][19], callres("(JoinAcceptPayload).MarshalBinary", 0)[0][20], callres("(JoinAcceptPayload).MarshalBinary", 0)[0][21], callres("(JoinAcceptPayload).MarshalBinary", 0)[0][22], callres("(JoinAcceptPayload).MarshalBinary", 0)[0][23], callres("(JoinAcceptPayload).MarshalBinary", 0)[0][24], callres("(JoinAcceptPayload).MarshalBinary", 0)[0][25], callres("(JoinAcceptPayload).MarshalBinary", 0)[0][26], callres("(JoinAcceptPayload).MarshalBinary", 0)[0][27], om[0], om[1], om[2], om[3])[13] && p.MIC[2] == aes_dec(key, callres("(JoinAcceptPayload).MarshalBinary", 0)[0][16], callres("(JoinAcceptPayload).MarshalBinary", 0)[0][17], callres("(JoinAcceptPayload).MarshalBinary", 0)[0][18], callres("(JoinAcceptPayload).MarshalBinary", 0)[0][19], callres("(JoinAcceptPayload).MarshalBinary", 0)[0][20], callres("(JoinAcceptPayload).MarshalBinary", 0)[0][21], callres("(JoinAcceptPayload).MarshalBinary", 0)[0][22], callres("(JoinAcceptPayload).MarshalBinary", 0)[0][23], callres("(JoinAcceptPayload).MarshalBinary", 0)[0][24], callres("(JoinAcceptPayload).MarshalBinary", 0)[0][25], callres("(JoinAcceptPayload).MarshalBinary", 0)[0][26], callres("(JoinAcceptPayload).MarshalBinary", 0)[0][27], om[0], om[1], om[2], om[3])[14] && p.MIC[3] == aes_dec(key, callres("(JoinAcceptPayload).MarshalBinary", 0)[0][16], callres("(JoinAcceptPayload).MarshalBinary", 0)[0][17], callres("(JoinAcceptPayload).MarshalBinary", 0)[0][18], callres("(JoinAcceptPayload).MarshalBinary", 0)[0][19], callres("(JoinAcceptPayload).MarshalBinary", 0)[0][20], callres("(JoinAcceptPayload).MarshalBinary", 0)[0][21], callres("(JoinAcceptPayload).MarshalBinary", 0)[0][22], callres("(JoinAcceptPayload).MarshalBinary", 0)[0][23], callres("(JoinAcceptPayload).MarshalBinary", 0)[0][24], callres("(JoinAcceptPayload).MarshalBinary", 0)[0][25], callres("(JoinAcceptPayload).MarshalBinary", 0)[0][26], callres("(JoinAcceptPayload).MarshalBinary", 0)[0][27], om[0], om[1], om[2], om[3])[15]
+
+// decryption: pt = aes128_encrypt(key, ct) block by block, ct = Bytes | MIC; the last 4 bytes of pt become the MIC and the
+// rest is handed to the join-accept decoder
+//@ func (*PHYPayload).DecryptJoinAcceptPayload
+//@   props C04 C09 C10
+//@   requires typed-nil: istype(p.MACPayload, "*DataPayload") ==> as(p.MACPayload, "*DataPayload") != nil
+//@   modifies *p, as(p.MACPayload, "*DataPayload").Bytes[len(as(p.MACPayload, "*DataPayload").Bytes):cap(as(p.MACPayload, "*DataPayload").Bytes)]
+//@   ensures C04/type: err == nil ==> istype(p.MACPayload, "*JoinAcceptPayload")
+//@   loop 0: invariant bounds: 0 <= i && i <= len(pt) / 16
+//@   loop 0: modifies pt[0:len(pt)]
+//@   loop 0: decreases len(pt) / 16 - i
+
+//@ func (*PHYPayload).SetUplinkJoinMIC
+//@   props C04 C10
+//@   modifies p.MIC
+//@   ensures C04/set: err == nil ==> p.MIC == callres("(PHYPayload).calculateUplinkJoinMIC", 0)[0]
+//@ func (PHYPayload).ValidateUplinkJoinMIC
+//@   props C04 C10
+//@   modifies nothing
+//@   ensures C04/validate: err == nil ==> result0 == (p.MIC == callres("(PHYPayload).calculateUplinkJoinMIC", 0)[0])
+//@ func (*PHYPayload).SetDownlinkJoinMIC
+//@   props C04 C10
+//@   requires typed-nil: istype(p.MACPayload, "*JoinAcceptPayload") ==> as(p.MACPayload, "*JoinAcceptPayload") != nil
+//@   modifies p.MIC
+//@   ensures C04/set: err == nil ==> p.MIC == callres("(PHYPayload).calculateDownlinkJoinMIC", 0)[0]
+//@ func (PHYPayload).ValidateDownlinkJoinMIC
+//@   props C04 C10
+//@   requires typed-nil: istype(p.MACPayload, "*JoinAcceptPayload") ==> as(p.MACPayload, "*JoinAcceptPayload") != nil
+//@   modifies nothing
+//@   ensures C04/validate: err == nil ==> result0 == (p.MIC == callres("(PHYPayload).calculateDownlinkJoinMIC", 0)[0])
